@@ -204,6 +204,40 @@ def r_replace_form(ck: Checker) -> None:
             ck.violation("R-REPLACE-FORM", f, fn, what, construct="replace: original not unregistered before dataclasses.replace")
 
 
+def r_postinit_derived(ck: Checker, rule: str = "R-REPLACE-FORM") -> None:
+    """The constructor hook stores only the derived fields (declared init=False).  A store of a field the caller passes in (an init field
+    of ASTNode) replaces the value given to the constructor: dataclasses.replace / duplicate hand the original's value over and the copy
+    ends up with a different one (positive pattern: the attribute name is an init field declared in the class body)."""
+    c = ck.repo.cls(NODE, "ASTNode")
+    init_fields: set[str] = set()
+    derived: set[str] = set()
+    for st in c.node.body:
+        if isinstance(st, ast.AnnAssign) and isinstance(st.target, ast.Name):
+            v = st.value
+            no_init = isinstance(v, ast.Call) and dotted(v.func) in ("field", "dataclasses.field") and any(k.arg == "init" and isinstance(k.value, ast.Constant) and k.value.value is False for k in v.keywords)
+            (derived if no_init else init_fields).add(st.target.id)
+    f = ck.repo.func(NODE, "ASTNode.__post_init__")
+    n = 0
+    for fn in [x for x in (f.raw, f.node) if x is not None]:
+        for x in ast.walk(fn):
+            name = None
+            if isinstance(x, ast.Call) and dotted(x.func) in ("object.__setattr__", "setattr") and len(x.args) == 3 and norm(x.args[0]) == "self" and isinstance(x.args[1], ast.Constant):
+                name = str(x.args[1].value)
+            elif isinstance(x, ast.Subscript) and isinstance(x.ctx, ast.Store) and norm(x.value) == "self.__dict__" and isinstance(x.slice, ast.Constant):
+                name = str(x.slice.value)
+            if name is None:
+                continue
+            n += 1
+            what = f"ASTNode.__post_init__ stores the derived field `{name}` only (a field passed to the constructor keeps the value it was given)"
+            if name in init_fields:
+                ck.violation(rule, f, x, what, positive=True,
+                             construct=f"ASTNode.__post_init__: {norm(x)[:70]} overwrites the constructor argument `{name}`; a copy made by replace()/duplicate() does not keep the original's value")
+            else:
+                ck.holds(rule, f, x, what)
+    if n < 2 or not derived:
+        ck.incomplete(rule, f, f.node, f"only {n} stores of derived fields found in __post_init__ (2 confirmed by hand)")
+
+
 def run(ck: Checker) -> None:
     ck.explanation = (
         "Must-pass-through analysis of duplicate (decision tree of the per-field loop body: single children and every tuple element "
@@ -217,6 +251,7 @@ def run(ck: Checker) -> None:
     from .c03 import r_reg_fresh
     ck.guard("R-REG-FRESH", lambda: r_reg_fresh(ck))  # a copy is registered under an id no registered node holds
     ck.guard("R-REPLACE-FORM", lambda: r_replace_form(ck))
+    ck.guard("R-REPLACE-FORM", lambda: r_postinit_derived(ck))
     # a replacement takes the id a fresh construction would take now: the unique-id helper looks at the registry only
     from .c03 import r_unique_id_state
     ck.guard("R-ID-DET", lambda: r_unique_id_state(ck))
